@@ -1064,7 +1064,9 @@ def range_cases(ctx, C, spec, active, dom, adom, hpr, rng, count, scale):
         if not okb or not same_value(back, x, cont):
             ctx.violation("property", "round trip of the member %r of %r gives %r" % (x, dom, back), case=case,
                           signature=dict(domain=dname, constructor=kind, op="round_trip", defect="round_trip_differs",
-                                         continuous=cont))
+                                         continuous=cont,
+                                         range_width_ge_2pow52=bool("lower" in spec and not cont and isinstance(spec["lower"], int)
+                                                                    and spec["upper"] - spec["lower"] + 1 >= 2 ** 52)))
     # ---- random_config (real RandomState): member of the active range
     rs = np.random.RandomState(rng.randrange(2 ** 31))
     for _ in range(3):
